@@ -213,8 +213,8 @@ theorem C01_reimport (s : State) (m : Mod) (ms : List Mod) (h : (importModule gr
   rw [importModule_again graph s m ms h]
 
 set_option maxRecDepth 1000000 in
-/-- non-vacuity: the hypothesis covers the package itself and the modules it pulls in (more than 50 of the
-module files) -/
-example : 50 < (graph.domain.filter (fun m => rootState.isPresent m)).length := by decide +kernel
+/-- non-vacuity: the hypothesis covers the package itself and the modules it pulls in (55 of the 150 module
+files on the tree this was written for; the bound is kept loose so that a harmless refactoring does not break it) -/
+example : 10 < (graph.domain.filter (fun m => rootState.isPresent m)).length := by decide +kernel
 
 end Ioflo.Imports
